@@ -252,3 +252,39 @@ Proof.
   try (destruct (is_wt4 c)); intros HL; destruct bl;
   intuition (try discriminate; try congruence; eauto).
 Qed.
+
+Ltac view_same Hu := unfold view_eqv, view_of; cbn; rewrite ?upd_other by exact Hu; tauto.
+
+(* internal_wait: the fiber links itself at the top of its list *)
+Lemma step_cs_push ff a p k :
+  stk (gb x) t = stk_of (PCs ff (MWt3 a p k)) -> L (view_of x t) (PCs ff (MWt3 a p k)) ->
+  X x t (PCs ff (MWt3 a p k)) -> Inv (gstep x t).
+Proof.
+  intros Hs HL HX. destruct HL as [Hob Hch]. assert (Hr : role x t = Owner) by apply Hob.
+  cbn [X csx is_wt4] in HX, Hch. destruct HX as (c0 & Hl & -> & Hlink).
+  assert (Hex : extra (stk (gb x) t) = []) by (rewrite Hs; reflexivity).
+  pose proof (I_Q x HI) as [Q1 Q2 Q3].
+  assert (Hnt : forall c, lhd c -> ~ In t (cq x c)).
+  { intros c Hc Hin. pose proof (Q3 c t Hc Hin) as E. cbn in Hch. destruct Hch; congruence. }
+  gred Hs. cbn.
+  apply (cs_gen (set_cell m c0 (fname t)) (PCs (FStWrite t ST_WAITING) (MWt4 a p k))); try reflexivity; try assumption.
+  - split; [exact Hob|]. cbn. apply upd_same.
+  - intros u q Hu _ HLq. eapply L_eqv; [|exact HLq]. view_same Hu.
+  - constructor; cbn [mk gb mem cq chand set_cell cell].
+    + intros c Hc. destruct (Nat.eq_dec c c0) as [->|Nc].
+      * rewrite upd_same. cbn. rewrite upd_same. split; [reflexivity|].
+        apply clist_ok_upd; [apply not_eq_sym; apply lhd_scr; exact Hl| |].
+        -- intros f _. apply not_eq_sym. apply lhd_scr. exact Hl.
+        -- apply (clist_ok_head _ c0); [symmetry; exact Hlink|apply Q1; exact Hl].
+      * rewrite upd_other by exact Nc. apply clist_ok_upd; [exact Nc| |apply Q1; exact Hc].
+        intros f _. apply not_eq_sym. apply lhd_scr. exact Hl.
+    + assert (Hn : ~ In t (cq x c_waiters ++ cq x c_rwaiters)).
+      { rewrite in_app_iff. intros [H|H]; [apply (Hnt c_waiters)|apply (Hnt c_rwaiters)]; unfold lhd; auto. }
+      destruct Hl as [-> | ->].
+      * rewrite upd_same, upd_other by (unfold c_waiters, c_rwaiters; lia). cbn. constructor; assumption.
+      * rewrite upd_same, upd_other by (unfold c_waiters, c_rwaiters; lia). apply NoDup_insert; assumption.
+    + intros c f Hc Hin. destruct (Nat.eq_dec f t) as [->|Nf]; [apply upd_same|].
+      rewrite upd_other by exact Nf. apply (Q3 c f Hc).
+      destruct (Nat.eq_dec c c0) as [->|Nc]; [|rewrite upd_other in Hin by exact Nc; exact Hin].
+      rewrite upd_same in Hin. destruct Hin as [E|Hin]; [congruence|exact Hin].
+Qed.
